@@ -1,7 +1,111 @@
+import ElvisVerif.Model.IpGen
+import ElvisVerif.Model.Dhcp
 import Driver.Common
-/-! Line-protocol handlers for C15 (sub-commands `c15` / `c15-*`). -/
+/-! Line-protocol handlers for C15: `c15` (address generator), `c15-dhcp` (DHCP message level). -/
 namespace Driver.C15
+open Elvis.IpGen
 
-def dispatch (_sub : String) (_i _o : IO.FS.Stream) : Option (IO Unit) := none
+/-- `Ipv4Mask::count_ones` -/
+def popcount (m : Nat) : Nat := (List.range 32).foldl (fun c i => if m.testBit i then c + 1 else c) 0
+
+def showNet (n : Net) : String := s!"net {n.id}/{popcount n.mask}"
+
+/-- `clone().fetch_net(len)` for every len 0..=32: an observable fingerprint of the free set -/
+def probe (g : Gen) : String :=
+  " ".intercalate <| (List.range 33).map fun len =>
+    match fetchNet g (fromBitcount len) with
+    | .ok (_, some n) => toString n.id
+    | .ok (_, none) => "-"
+    | .error e => "E:" ++ e
+
+/-- drain a clone with `fetch_ip`, at most `limit` times -/
+def drain : Nat → Gen → Nat → Nat → String
+  | 0, _, cnt, sum => s!"n={cnt} sum={sum} more"
+  | fuel + 1, g, cnt, sum =>
+    match fetchIp g with
+    | .ok (g', some a) => drain fuel g' (cnt + 1) ((sum + a) % 18446744073709551616)
+    | .ok (_, none) => s!"n={cnt} sum={sum} end"
+    | .error e => s!"n={cnt} sum={sum} err {e}"
+
+def ctor (ws : List String) : Option (Except String Gen) :=
+  match ws with
+  | ["new", a, b] => do pure (.ok (new ((← a.toNat?), (← b.toNat?))))
+  | ["newsub", ip, len] => do pure (newSub (Net.newShort (← ip.toNat?) (← len.toNat?)))
+  | ["newsubne", ip, len] => do pure (newSubNoEnds (Net.newShort (← ip.toNat?) (← len.toNat?)))
+  | ["all"] => some (.ok all)
+  | ["none"] => some (.ok none_)
+  | ["blockedout"] => some blockedOut
+  | _ => none
+
+def unit (g : Gen) (r : Except String Gen) : Option Gen × String :=
+  match r with
+  | .ok g' => (some g', "ok")
+  | .error e => (some g, s!"err {e}")
+
+def op (g : Gen) (ws : List String) : Option (Option Gen × String) :=
+  match ws with
+  | ["block", ip, len] => do pure (unit g (blockSubnet g (Net.newShort (← ip.toNat?) (← len.toNat?))))
+  | ["blockres"] => some (unit g (blockReservedIps g))
+  | ["retnet", ip, len] => do pure (unit g (returnSubnet g (Net.newShort (← ip.toNat?) (← len.toNat?))))
+  | ["retip", ip] => do pure (unit g (returnIp g (← ip.toNat?)))
+  | ["fetchip"] =>
+    some <| match fetchIp g with
+    | .ok (g', some a) => (some g', s!"ip {a}")
+    | .ok (g', none) => (some g', "none")
+    | .error e => (some g, s!"err {e}")
+  | ["fetchnet", len] => do
+    let len ← len.toNat?
+    pure <| match fetchNet g (fromBitcount len) with
+    | .ok (g', some n) => (some g', showNet n)
+    | .ok (g', none) => (some g', "none")
+    | .error e => (some g, s!"err {e}")
+  | ["avail", ip, len] => do
+    let n := Net.newShort (← ip.toNat?) (← len.toNat?)
+    pure <| match isAvailable g n with
+    | .ok b => (some g, toString b)
+    | .error e => (some g, s!"err {e}")
+  | ["probe"] => some (some g, probe g)
+  | ["audit", limit] => do pure (some g, drain (← limit.toNat?) g 0 0)
+  | _ => none
+
+def step (st : Option Gen) (ws : List String) : Option Gen × String :=
+  match ws with
+  | ["case", id] => (none, s!"case {id}")
+  | _ =>
+    match ctor ws with
+    | some (.ok g) => (some g, "ok")
+    | some (.error e) => (st, s!"err {e}")
+    | none =>
+      match st with
+      | none => (st, "bad-op")
+      | some g =>
+        match op g ws with
+        | some r => r
+        | none => (st, "bad-op")
+
+/-! ### DHCP, message level -/
+open Elvis.Dhcp in
+def dhcpStep (st : Option Elvis.Dhcp.World) (ws : List String) : Option Elvis.Dhcp.World × String :=
+  match ws with
+  | ["case", id] => (none, s!"case {id}")
+  | ["world", a, b, n] =>
+    match a.toNat?, b.toNat?, n.toNat? with
+    | some a, some b, some n => let w := Elvis.Dhcp.World.init (a, b) n; (some w, "ok " ++ w.summary)
+    | _, _, _ => (st, "bad-op")
+  | _ =>
+    match st with
+    | none => (st, "bad-op")
+    | some w =>
+      match Elvis.Dhcp.parseAct ws with
+      | none => (st, "bad-op")
+      | some act =>
+        match Elvis.Dhcp.World.step w act with
+        | .ok w' => (some w', "ok " ++ w'.summary)
+        | .error e => (some w, s!"err {e} " ++ w.summary)
+
+def dispatch (sub : String) (i o : IO.FS.Stream) : Option (IO Unit) :=
+  if sub == "c15" then some (Driver.loop i o step none)
+  else if sub == "c15-dhcp" then some (Driver.loop i o dhcpStep none)
+  else none
 
 end Driver.C15
